@@ -783,7 +783,8 @@ class Runner:
             return "ok"
         self.tags.add("obs-err:" + exc_name(exc))
         # ---- a call that raised must leave no trace (C09 failure atomicity)
-        if after != before and not self.tainted:
+        if after != before:
+            # (judged whatever happened before: the comparison is local to this call)
             # which sibling completed? top-level graph vs subtree
             if rm:
                 sig = SIG_F4_RM
@@ -795,10 +796,8 @@ class Runner:
                 # more than completed sibling subtrees stayed behind: the failing
                 # call's own undo log was not applied
                 sig = "registration-not-rolled-back:own-hooks-left"
-            if self.selfreach:
-                sig = SIG_F10
-            elif self.shadow_default:
-                sig = SIG_F14
+            # (no attribution to F10 / F80 here: since fix 4ea62e3 a raising call is rolled
+            # back whatever state the hooks were in)
             self.hits09.append(_hit(sig, "%s raised %s but the notifier populations changed" % (
                 "observe(remove=True)" if rm else "observe", exc_name(exc)),
                 op=op, left_behind=sorted(str(k) for k in (after - before).keys())[:6],
@@ -809,14 +808,20 @@ class Runner:
             self.tags.add("extra-remove")
         elif rm and not self.tainted and not self.selfreach:
             pass
-        if rm and exc_name(exc) != "NotifierNotFound" and not self.tainted and not self.selfreach:
+        # the two checks below presuppose that the walk of the expression meets no failing
+        # iter_* in the CURRENT heap (else the removal legitimately raises, and changes nothing)
+        walk_ok = graphs is not None and all(
+            w.spec_walk(g, w.pool[root], (hid, root), collections.Counter()) for g in graphs)
+        if not walk_ok:
+            self.tags.add("unobs-walk-fails")
+        if rm and walk_ok and exc_name(exc) != "NotifierNotFound" and not self.tainted and not self.selfreach:
             by_canon = collections.Counter()
             for kk, n in self.ledger.items():
                 by_canon[(kk[0], kk[1], canon(kk[2]))] += n
             if all(by_canon[kc] >= n for kc, n in collections.Counter(keys).items()):
                 self.hits09.append(_hit("registered-removal-raised:" + exc_name(exc),
                                         "unregistering an active registration raised", op=op))
-        if rm and exc_name(exc) == "NotifierNotFound" and not self.tainted and not self.selfreach:
+        if rm and walk_ok and exc_name(exc) == "NotifierNotFound" and not self.tainted and not self.selfreach:
             by_canon = collections.Counter()
             for kk, n in self.ledger.items():
                 by_canon[(kk[0], kk[1], canon(kk[2]))] += n
